@@ -371,6 +371,7 @@ func main() {
 	}
 
 	idx, n := 0, 0
+	hangs, endWait := 0, 5*time.Second
 	err := vh.ReadCases(*cases, func(raw json.RawMessage) error {
 		idx++
 		if (idx-1)%*shards != *shard {
@@ -504,7 +505,14 @@ func main() {
 			rid := sawNew()
 			ended := false
 			if rid != 0 {
-				_, ended = sched.AwaitEvent(mark, 5*time.Second, func(e gate.Event) bool { return e.Name == "ds.clean" && u32(e.KV[0]) == rid })
+				_, ended = sched.AwaitEvent(mark, endWait, func(e gate.Event) bool { return e.Name == "ds.clean" && u32(e.KV[0]) == rid })
+			}
+			if !ended {
+				// a request that neither replied nor ended within the deadline. After 8 of them in this process the verdict
+				// does not depend on the deadline any more: go on faster.
+				if hangs++; hangs >= 8 {
+					endWait = time.Second
+				}
 			}
 			replied := false
 			for _, e := range sched.Events(mark) {
